@@ -24,6 +24,7 @@ VARIABLES b,     \* [s |-> limbs, idx |-> index_, oob |-> BOOLEAN]
           ret, mret   \* value returned by the last operation: implementation / specification
 vars == <<b, v, ret, mret>>
 
+Zero == [s |-> [i \in 0..MaxIdx |-> 0], idx |-> 0, oob |-> FALSE]
 InB(i) == i >= 0 /\ i <= MaxIdx
 Rd(x, i) == IF InB(i) THEN x.s[i] ELSE 0
 Touch(x, i) == IF InB(i) THEN x ELSE [x EXCEPT !.oob = TRUE]
@@ -72,7 +73,7 @@ MulLoop(x, m, index) ==
         x1 == Wr(x, index, p % M)
         x2 == AddAt(x1, p \div M, index + 1)
     IN IF index = 0 THEN x2 ELSE MulLoop(x2, m, index - 1)
-DoMul(x, m) == MulLoop(x, m, x.idx)
+DoMul(x, m) == TrimIdx(MulLoop(x, m, x.idx))        \* while ((index_ > 0) && (s[index_] == 0)) --index_;
 \* ---- Divide(divisor) -> remainder ---------------------------------------------
 RECURSIVE DivLoop(_, _, _, _)
 DivLoop(x, rem, d, index) ==
@@ -124,9 +125,8 @@ SLMove(x, move) ==                            \* while (index_ != 0) { --index_;
 RECURSIVE SLZero(_, _)
 SLZero(x, move) == LET m1 == move - 1  x1 == Wr(x, m1, 0) IN IF m1 # 0 THEN SLZero(x1, m1) ELSE x1
 RECURSIVE SLFindTop(_, _, _)
-SLFindTop(x, index, fuel) ==                  \* while (s[index] == 0) --index;   (no lower bound in the code)
-    IF fuel = 0 \/ ~InB(index) THEN [x |-> [x EXCEPT !.oob = TRUE], index |-> 0]
-    ELSE IF Rd(x, index) = 0 THEN SLFindTop(x, index - 1, fuel - 1) ELSE [x |-> x, index |-> index]
+SLFindTop(x, index, fuel) ==                  \* while ((index != 0) && (s[index] == 0)) --index;
+    IF index # 0 /\ Rd(x, index) = 0 THEN SLFindTop(x, index - 1, fuel - 1) ELSE [x |-> x, index |-> index]
 RECURSIVE SLBits(_, _, _)
 SLBits(x, index, offset) ==
     IF index # 0
@@ -167,10 +167,10 @@ LowBitW(a) == IF a = 0 THEN W ELSE IF a % 2 = 1 THEN 0 ELSE 1 + LowBitW(a \div 2
 RECURSIVE HighBitW(_)
 HighBitW(a) == IF a < 2 THEN 0 ELSE 1 + HighBitW(a \div 2)
 RECURSIVE FFScan(_, _)
-FFScan(x, index) ==                         \* while ((s[index] == 0) && (index <= index_)) ++index;
-    IF Rd(Touch(x, index), index) = 0 /\ InB(index) /\ index <= x.idx THEN FFScan(x, index + 1)
+FFScan(x, index) ==                         \* while ((index < index_) && (s[index] == 0)) ++index;
+    IF index < x.idx /\ Rd(Touch(x, index), index) = 0 THEN FFScan(x, index + 1)
     ELSE [x |-> Touch(x, index), index |-> index]
-DoFirstBit(x) == LET r == FFScan(x, 0) IN [x |-> r.x, ret |-> LowBitW(Rd(r.x, r.x.idx)) + r.index * W]   \* uses s[index_] as the code does
+DoFirstBit(x) == LET r == FFScan(x, 0) IN [x |-> r.x, ret |-> LowBitW(Rd(r.x, r.index)) + r.index * W]
 DoLastBit(x) == HighBitW(Rd(x, x.idx)) + x.idx * W
 \* ---- wide operands (N_Number_T of two words): Set / Or / And / Add / Subtract ---------
 DoSet(x, n) ==                               \* operator=(number): Set, then clear the limbs above the new index
@@ -192,8 +192,18 @@ DoAnd(x, n) == LET lo == n % M  hi == n \div M
                                      An(p, q) == IF p = 0 \/ q = 0 THEN 0 ELSE (p % 2) * (q % 2) + 2 * An(p \div 2, q \div 2)
                                  IN An(a, c)
                    x1 == [Wr(x, 0, AndW(Rd(x, 0), lo)) EXCEPT !.idx = 0]
-               IN IF hi # 0 THEN LET x2 == Wr(x1, 1, AndW(Rd(x1, 1), hi)) IN IF Rd(x2, 1) # 0 THEN [x2 EXCEPT !.idx = 1] ELSE x2
-                  ELSE x1
+                   \* words covered by the operand are and-ed, the words beyond it are cleared (up to the old index)
+                   x2 == IF hi # 0 THEN LET y == Wr(x1, 1, AndW(Rd(x1, 1), hi)) IN IF Rd(y, 1) # 0 THEN [y EXCEPT !.idx = 1] ELSE y ELSE x1
+                   from == IF hi # 0 THEN 2 ELSE 1
+                   RECURSIVE ClearUp(_, _)
+                   ClearUp(y, index) == IF index <= x.idx THEN ClearUp(Wr(y, index, 0), index + 1) ELSE y
+               IN ClearUp(x2, from)
+\* ---- copy(src) used by copy / move assignment: words of src, then the words above are cleared
+RECURSIVE CopyWords(_, _, _)
+CopyWords(x, src, index) == IF index <= src.idx THEN CopyWords(Wr(x, index, Rd(src, index)), src, index + 1) ELSE x
+RECURSIVE ClearDown(_, _)
+ClearDown(x, index) == IF x.idx >= index THEN ClearDown([Wr(x, x.idx, 0) EXCEPT !.idx = x.idx - 1], index) ELSE x   \* while (index_ >= index)
+DoCopyAssign(x, src) == [ClearDown(CopyWords(x, src, 0), src.idx + 1) EXCEPT !.idx = src.idx]
 DoAddWide(x, n) == LET x1 == AddAt(x, n % M, 0) IN IF n \div M # 0 THEN AddAt(x1, n \div M, 1) ELSE x1
 DoSubWide(x, n) == LET x1 == SubAt(x, n % M, 0) IN IF n \div M # 0 THEN SubAt(x1, n \div M, 1) ELSE x1
 
@@ -207,7 +217,6 @@ MLow(a) == IF a % 2 = 1 THEN 0 ELSE 1 + MLow(a \div 2)
 RECURSIVE MHigh(_)
 MHigh(a) == IF a < 2 THEN 0 ELSE 1 + MHigh(a \div 2)
 
-Zero == [s |-> [i \in 0..MaxIdx |-> 0], idx |-> 0, oob |-> FALSE]
 Init == b = Zero /\ v = 0 /\ ret = -1 /\ mret = -1
 Do(nb, nv, r, mr) == b' = nb /\ v' = nv /\ ret' = r /\ mret' = mr
 Fits(x) == x >= 0 /\ x < Limit
@@ -215,6 +224,7 @@ Wide == 0..(M * M - 1)
 
 Next ==
   \/ \E n \in Wide : Do(DoSet(b, n), n, -1, -1)
+  \/ \E n \in Wide : Do(DoCopyAssign(b, DoSet(Zero, n)), n, -1, -1)          \* b = BigInt(n)
   \/ \E n \in Wide : Fits(v + n) /\ Do(DoAddWide(b, n), v + n, -1, -1)
   \/ \E n \in Wide : v - n >= 0 /\ Do(DoSubWide(b, n), v - n, -1, -1)
   \/ \E n \in Wide : Do(DoOr(b, n), MOr(v, n), -1, -1)
